@@ -49,7 +49,8 @@ NpmReqs == << NpmReq(<<<<Cmr("", [n |-> <<>>, pre |-> <<>>, xs |-> "*"])>>>>), N
               NpmReq(<<<<Cmr(">", Pn(<<2, 0, 0>>))>>>>),
               NpmReq(<<<<Cmr(">=", Ppre(<<1, 0, 0>>, <<IdStr(1)>>)), Cmr("<", Pn(<<1, 0, 0>>))>>>>),
               NpmReq(<<<<Cmr("", Ppre(<<1, 0, 0>>, <<IdStr(1)>>))>>, <<Cmr("", Ppre(<<2, 0, 0>>, <<IdStr(3), IdNum(1)>>))>>>>),
-              Tag("latest"), Tag("beta"), Tag("zzz"), Tag("nope") >>
+              Tag("latest"), Tag("beta"), Tag("zzz"), Tag("nope"),
+              Tag("bet"), Tag("eta"), Tag("late") >>      \* proper substrings of the tags in use: must select nothing
 PyC(op, rel) == [op |-> op, rel |-> rel, star |-> FALSE, pre |-> <<>>, post |-> -1, dev |-> -1]
 PyReq(r) == [text |-> PySpecText(r), range |-> TRUE, ast |-> r]
 PyReqs == << PyReq(<<PyC(">=", <<0>>)>>), PyReq(<<PyC(">=", <<1, 0>>)>>), PyReq(<<PyC("==", <<1, 0>>)>>), PyReq(<<PyC("<", <<2>>)>>),
